@@ -189,6 +189,9 @@ QueryResult(P, W, r, trusted) ==
     {e.f : e \in ApplyRule([head |-> r.head, body |-> r.body, guards |-> r.guards,
                             owner |-> AZ, trusted |-> trusted], W)}
 
+\* Authorizer::query_exactly_one : the single fact of the result, or an error carrying how many were found
+ExactlyOne(R) == [ok |-> Cardinality(R) = 1, n |-> Cardinality(R)]
+
 (***************************************************************************)
 (* Attenuation (C03): P extended by one more block E.                      *)
 (***************************************************************************)
